@@ -4,35 +4,1204 @@ Equivalence of two applications on all requests is behavioural; decided is that 
 flat declaration is computed the way the property says:
 
   R10.a  re-binding covers every inner route in order: SubApplication.bind_all walks self.app.routes
-         directly, skips only NullRoute instances, appends rt.bind(app, **kwargs) for each, with
-         kwargs['prefix'] = self.prefix; add() inserts the returned list contiguously (R06.a);
-         cast_to_route_factory turns (prefix, Application) into SubApplication(*in_arg);
+         directly (loop or list comprehension), skips only NullRoute instances, yields rt.bind(app, **kw) once
+         for each, where the keyword dict carries 'prefix' = self.prefix on top of whatever the caller passed;
+         add() inserts the returned list contiguously (R06.a); cast_to_route_factory turns
+         (prefix, Application) into SubApplication(*in_arg);
   R10.b  prefixing composes: BoundRoute.pattern = prefix + route.pattern (the already-bound inner
          pattern), prefix defaults to '', SubApplication.prefix = prefix.rstrip('/');
   R10.c  middleware order (= R03.d), resource precedence at bind and request time (= R02.c), built-in
          _application is the outermost binding application;
-  R10.d  error handling comes from the application being bound into: render_error is taken from
-         app.error_handler when rebind_render_error (default True, no caller switches it off), checked
-         against the merged resources; dispatch consults self.error_handler;
+  R10.d  error handling comes from the application being bound into: the value that ends up in
+         self.render_error is app.error_handler's when rebind_render_error (default True, no caller switches it
+         off) and the route's otherwise; it is checked against the merged resources; dispatch consults
+         self.error_handler;
   R10.e  renderer stickiness plumbing: rebind_render flows SubApplication.__init__ (default False) -> add
          -> bind_all -> BoundRoute.__init__ under one keyword; explicit callable renders win; the render
          factory is that of the most recently bound application able to provide one; every bind keyword a
          caller writes is popped by BoundRoute.__init__.
 Declined: the equivalence itself; render_factory selection as a value computation.
+
+Values are recognised by role, not by the local that carries them: ``effects.Flow`` (reaching definitions on the
+CFG) gives the values that can flow into ``self.render`` / ``self.render_error`` with their path conditions, and
+resolves named temporaries (``unbound_render = self.unbound_route.render``) to what they stand for.
 """
 import ast
+import copy
 
 from ..core import AnalysisError, norm, short
+from ..cfg import expand_conds
+from ..effects import Flow, slot_key, effects_in, callee_of
+from ..astutil import argn
+from .. import layers as layers_
 from . import chain
-from .c07 import bind_kwarg_agreement
-from .common import (cfg_of, fkey, conds, has_cond, cond_texts, stmts_of, walk_body, call_tail, call_name, returns_of, stmt_of, kwarg)
+from .common import (cfg_of, fkey, conds, has_cond, cond_texts, stmts_of, walk_body, call_tail, call_name, returns_of, stmt_of, kwarg,
+                     isinstance_test)
 
 APP, ROUTE = 'clastic.application', 'clastic.route'
+
+
+# ------------------------------------------------------------------------------------------------ helpers
+def _expr(text):
+    return ast.parse(text, mode='eval').body
+
+
+def _deref(fl, expr, at):
+    """Follow a local / self-attribute with a single reaching assignment to the assigned expression."""
+    for _ in range(6):
+        k = slot_key(expr)
+        if k is None:
+            break
+        d = fl.single_def(k, at)
+        if d is None:
+            break
+        expr, at = d.value, d.stmt
+    return expr, at
+
+
+def _require_followed(repo, fi, leaves, what):
+    """A value handed out by a helper of the analysed package that the front-end could not dissolve into the caller
+    cannot be judged here: analysis gap, not a violation."""
+    from ..effects import callee_of
+    for l in leaves:
+        v = l.value
+        if isinstance(v, ast.Call):
+            callee = callee_of(repo, fi, v)
+            if callee is not None and callee.name.startswith('_'):
+                raise AnalysisError('%s: %s is computed by %s, which could not be followed' % (fi.qualname, what, callee.qualname))
+
+
+def _kwarg_name(fi):
+    a = fi.node.args
+    return a.kwarg.arg if a.kwarg is not None else None
+
+
+class Flags(object):
+    """Bind keywords of a ``**kw`` function by role: which expressions stand for ``kw.pop(K, D)``.
+
+    Recognised: the pop call itself, locals (chains of plain copies, tuple packing) assigned from it, and the spelled-out
+    default ``x = D`` ... ``if K in kw: x = kw.pop(K)``."""
+
+    def __init__(self, fl, fi, repo=None):
+        self.fl, self.fi = fl, fi
+        self.repo = repo if repo is not None else fi.mod.repo
+        self.kw = _kwarg_name(fi)
+        self._cache = {}
+
+    def _table(self, gen_target, gen_iter, elt_or_value):
+        """``kw.pop(n, d)`` driven by ``for n, d in TABLE`` with TABLE a module-level constant of (name, default) pairs:
+        the list of pairs, else None."""
+        if not (isinstance(gen_target, (ast.Tuple, ast.List)) and len(gen_target.elts) == 2 and all(isinstance(e, ast.Name) for e in gen_target.elts)):
+            return None
+        n, d = gen_target.elts[0].id, gen_target.elts[1].id
+        c = elt_or_value
+        if not (isinstance(c, ast.Call) and isinstance(c.func, ast.Attribute) and c.func.attr == 'pop' and norm(c.func.value) == self.kw and
+                [norm(a) for a in c.args] == [n, d] and not c.keywords):
+            return None
+        tab = fold_const(self.fi, gen_iter)
+        if isinstance(tab, dict):
+            tab = list(tab.items())
+        if not isinstance(tab, (tuple, list)) or not all(isinstance(p, (tuple, list)) and len(p) == 2 and isinstance(p[0], str) for p in tab):
+            return None
+        return [(p[0], p[1]) for p in tab]
+
+    def _table_entry(self, expr, at):
+        fl = self.fl
+        # a, b, c = [kw.pop(n, d) for n, d in TABLE]
+        k = slot_key(expr)
+        if k is not None:
+            ds = fl.reaching(k, at)
+            if len(ds) == 1 and ds[0].kind == 'assign' and isinstance(ds[0].idx, int) and ds[0].idx >= 0:
+                v = ds[0].value
+                if isinstance(v, ast.Call) and call_name(v) in ('list', 'tuple') and len(v.args) == 1:
+                    v = v.args[0]
+                if isinstance(v, (ast.ListComp, ast.GeneratorExp)) and len(v.generators) == 1 and not v.generators[0].ifs:
+                    tab = self._table(v.generators[0].target, v.generators[0].iter, v.elt)
+                    tg = [t for t in ds[0].stmt.targets if isinstance(t, (ast.Tuple, ast.List))]
+                    if tab is not None and tg and len(tg[0].elts) == len(tab) and not any(isinstance(e, ast.Starred) for e in tg[0].elts):
+                        return tab[ds[0].idx]
+            return None
+        # opts = {}; for n, d in TABLE: opts[n] = kw.pop(n, d) ... opts['key']      (or a dict comprehension)
+        if isinstance(expr, ast.Subscript) and isinstance(expr.value, ast.Name) and isinstance(expr.slice, ast.Constant):
+            dv = expr.value.id
+            d = fl.single_def(dv, at)
+            if d is None:
+                return None
+            tab = None
+            if isinstance(d.value, ast.DictComp) and len(d.value.generators) == 1 and not d.value.generators[0].ifs and \
+                    norm(d.value.key) == norm(d.value.generators[0].target.elts[0] if isinstance(d.value.generators[0].target, ast.Tuple) else None):
+                tab = self._table(d.value.generators[0].target, d.value.generators[0].iter, d.value.value)
+            elif isinstance(d.value, ast.Dict) and not d.value.keys:
+                fills = [e for e in effects_in(self.fi.node) if e.root == dv]
+                loops = [l for l in stmts_of(self.fi.node) if isinstance(l, ast.For) and len(l.body) == 1 and not l.orelse and isinstance(l.body[0], ast.Assign)
+                         and len(l.body[0].targets) == 1 and isinstance(l.body[0].targets[0], ast.Subscript) and norm(l.body[0].targets[0].value) == dv]
+                if len(fills) == 1 and len(loops) == 1 and fills[0].node is loops[0].body[0] and isinstance(loops[0].target, ast.Tuple) and \
+                        norm(loops[0].body[0].targets[0].slice) == norm(loops[0].target.elts[0]) and \
+                        fl.cfg.must_pass(fl.cfg.nodes_of(loops[0]), fl.cfg.entry, fl.cfg.nodes_of(at)):
+                    tab = self._table(loops[0].target, loops[0].iter, loops[0].body[0].value)
+            if tab is not None:
+                hit = [p for p in tab if p[0] == expr.slice.value]
+                if len(hit) == 1:
+                    return hit[0]
+        return None
+
+    def _pop(self, e):
+        """(key, default expr or None) when ``e`` is ``kw.pop('key'[, default])``"""
+        if isinstance(e, ast.Call) and isinstance(e.func, ast.Attribute) and e.func.attr == 'pop' and norm(e.func.value) == self.kw and \
+                e.args and isinstance(e.args[0], ast.Constant) and isinstance(e.args[0].value, str) and not e.keywords and len(e.args) <= 2:
+            return e.args[0].value, (e.args[1] if len(e.args) == 2 else None)
+        return None
+
+    def pops(self, key):
+        return [c for c in walk_body(self.fi.node) if self._pop(c) and self._pop(c)[0] == key]
+
+    def key_of(self, expr, at=None):
+        """(key, default expr) when ``expr`` (evaluated at ``at``) is the value of bind keyword ``key``; None otherwise."""
+        ck = (id(expr), id(at))
+        if ck not in self._cache:
+            self._cache[ck] = self._key_of(expr, at)
+        return self._cache[ck]
+
+    def _key_of(self, expr, at):
+        if at is None:
+            at = self.fl.stmt_of(expr)
+        direct = self._pop(expr)
+        if direct is not None:
+            return direct if direct[1] is not None else None
+        if at is None:
+            return None
+        te = self._table_entry(expr, at)
+        if te is not None:
+            return te[0], ast.Constant(value=te[1])
+        if slot_key(expr) is None:
+            return None
+        lv = self.fl.leaves(expr, at)
+        if len(lv) == 1 and not lv[0].opaque and isinstance(lv[0].value, ast.Subscript) and isinstance(lv[0].stmt, ast.AST):
+            te = self._table_entry(lv[0].value, lv[0].stmt)
+            if te is not None:
+                return te[0], ast.Constant(value=te[1])
+        popped = [(l, self._pop(l.value)) for l in lv if not l.opaque and self._pop(l.value)]
+        consts = [l for l in lv if not l.opaque and isinstance(l.value, ast.Constant)]
+        if len(lv) == 1 and len(popped) == 1 and popped[0][1][1] is not None:
+            return popped[0][1]
+        if len(lv) == 2 and len(popped) == 1 and len(consts) == 1 and popped[0][1][1] is None:
+            key = popped[0][1][0]
+            # x = D ... if 'key' in kw: x = kw.pop('key')
+            for t, p in popped[0][0].conds:
+                if p is True and isinstance(t, ast.Compare) and len(t.ops) == 1 and isinstance(t.ops[0], ast.In) and \
+                        isinstance(t.left, ast.Constant) and t.left.value == key and norm(t.comparators[0]) == self.kw:
+                    return key, consts[0].value
+        return None
+
+    def defaults(self, key):
+        """Default expressions of every expression in the function that stands for bind keyword ``key``."""
+        seen = []
+        for n in walk_body(self.fi.node):
+            if isinstance(n, (ast.Call, ast.Subscript)) or (isinstance(n, ast.Name) and isinstance(n.ctx, ast.Load)):
+                kv = self.key_of(n)
+                if kv is not None and kv[0] == key and not any(kv[1] is x or norm(kv[1]) == norm(x) for x in seen):
+                    seen.append(kv[1])
+        return seen
+
+    def default_is(self, key, value):
+        """True / False: the keyword defaults to the constant ``value`` everywhere / somewhere not; None: the keyword is
+        not read in a recognised way at all."""
+        ds = self.defaults(key)
+        if not ds:
+            return None
+        return all(isinstance(d, ast.Constant) and type(d.value) is type(value) and d.value == value for d in ds)
+
+
+class Unknown(Exception):
+    pass
+
+
+_POS_CMP = {ast.IsNot: ast.Is, ast.NotEq: ast.Eq, ast.NotIn: ast.In}
+
+
+class Prop(object):
+    """Propositional reading of path conditions: tests become formulas over atoms (canonical texts of calls, comparisons,
+    names; bind keywords by role), locals that name a condition are expanded -- also when they are set by an if-chain --
+    and implications are decided by truth table."""
+
+    def __init__(self, fl, flags=None):
+        self.fl, self.flags = fl, flags
+        self._memo = {}
+
+    # formulas: ('c', bool) | ('a', text) | ('n', f) | ('&', [f..]) | ('|', [f..])
+    def formula(self, e, at=None, depth=0):
+        fl = self.fl
+        if at is None:
+            at = fl.stmt_of(e)
+        if depth > 8:
+            raise Unknown('condition nested too deeply')
+        if isinstance(e, ast.Constant):
+            return ('c', bool(e.value))
+        if isinstance(e, ast.UnaryOp) and isinstance(e.op, ast.Not):
+            return ('n', self.formula(e.operand, at, depth + 1))
+        if isinstance(e, ast.BoolOp):
+            return ('&' if isinstance(e.op, ast.And) else '|', [self.formula(v, at, depth + 1) for v in e.values])
+        if isinstance(e, ast.IfExp):
+            t = self.formula(e.test, at, depth + 1)
+            return ('|', [('&', [t, self.formula(e.body, at, depth + 1)]), ('&', [('n', t), self.formula(e.orelse, at, depth + 1)])])
+        if isinstance(e, ast.Compare) and len(e.ops) == 1 and type(e.ops[0]) in _POS_CMP:
+            pos = ast.Compare(left=e.left, ops=[_POS_CMP[type(e.ops[0])]()], comparators=e.comparators)
+            return ('n', ('a', fl.text(pos, at)))
+        if self.flags is not None and isinstance(e, (ast.Name, ast.Call, ast.Subscript)):
+            kv = self.flags.key_of(e, at)
+            if kv is not None:
+                return ('a', 'keyword:%s' % kv[0])
+        k = slot_key(e)
+        if k is not None and at is not None:
+            ds = fl.reaching(k, at)
+            real = [d for d in ds if d.kind != 'entry']
+            if len(ds) == 1 and real and fl.single_def(k, at) is not None:
+                d = fl.single_def(k, at)
+                if isinstance(d.value, (ast.BoolOp, ast.UnaryOp, ast.Compare, ast.IfExp, ast.Constant, ast.Call, ast.Name, ast.Attribute)):
+                    return self.formula(d.value, d.stmt, depth + 1)
+            elif len(real) > 1 and len(real) == len(ds):
+                # set by an if-chain: the disjunction over the definitions of (their conditions and their value);
+                # only when the conditions are mutually exclusive and exhaustive (checked by truth table)
+                arms = []
+                lvs = fl.leaves(e, at)
+                if any(lf.opaque for lf in lvs):
+                    return ('a', fl.text(e, at))        # a value of unknown parts: a free atom assumes nothing
+                for lf in lvs:
+                    cs = [self.cond(t, p) for t, p in lf.conds]
+                    arms.append((('&', cs), self.formula(lf.value, lf.stmt if isinstance(lf.stmt, ast.AST) else at, depth + 1)))
+                guards = [g for g, _ in arms]
+                common = self._common(guards)
+                guards = [('&', [c for c in g[1] if c not in common]) for g in guards]
+                if not self._partition(guards):
+                    return ('a', fl.text(e, at))        # not a clean case split: a free atom assumes nothing
+                return ('|', [('&', [g, v]) for g, (_, v) in zip(guards, arms)])
+        return ('a', fl.text(e, at))
+
+    def cond(self, t, p):
+        f = self.formula(t)
+        return f if p else ('n', f)
+
+    def conds(self, cs):
+        return [self.cond(t, p) for t, p in cs]
+
+    @staticmethod
+    def _common(guards):
+        if not guards:
+            return []
+        return [c for c in guards[0][1] if all(c in g[1] for g in guards[1:])]
+
+    def atoms(self, f, acc=None):
+        acc = set() if acc is None else acc
+        if f[0] == 'a':
+            acc.add(f[1])
+        elif f[0] == 'n':
+            self.atoms(f[1], acc)
+        elif f[0] in '&|':
+            for x in f[1]:
+                self.atoms(x, acc)
+        return acc
+
+    def ev(self, f, env):
+        k = f[0]
+        if k == 'c':
+            return f[1]
+        if k == 'a':
+            return env[f[1]]
+        if k == 'n':
+            return not self.ev(f[1], env)
+        if k == '&':
+            return all(self.ev(x, env) for x in f[1])
+        return any(self.ev(x, env) for x in f[1])
+
+    def _rows(self, fs):
+        names = sorted(set().union(*[self.atoms(f) for f in fs])) if fs else []
+        if len(names) > 14:
+            raise Unknown('too many atoms')
+        for i in range(1 << len(names)):
+            yield dict((n, bool(i >> j & 1)) for j, n in enumerate(names))
+
+    def _partition(self, guards):
+        for env in self._rows(guards):
+            if sum(1 for g in guards if self.ev(g, env)) != 1:
+                return False
+        return True
+
+    def implies(self, premises, conclusion):
+        """premises (list of formulas, conjunction) => conclusion, on every assignment of the atoms"""
+        for env in self._rows(list(premises) + [conclusion]):
+            if all(self.ev(p, env) for p in premises) and not self.ev(conclusion, env):
+                return False
+        return True
+
+
+def _subst_name(expr, name, const):
+    class S(ast.NodeTransformer):
+        def visit_Name(self, n):
+            if n.id == name and isinstance(n.ctx, ast.Load):
+                return ast.copy_location(ast.Constant(value=const), n)
+            return n
+    return S().visit(copy.deepcopy(expr))
+
+
+def concat_parts(e):
+    """Operands of a string concatenation in any spelling: ``a + b``, ``'%s%s' % (a, b)``, ``'{}{}'.format(a, b)``,
+    ``f'{a}{b}'``, ``''.join([a, b])`` -> [a, b]; None when ``e`` is not a pure concatenation."""
+    if isinstance(e, ast.BinOp) and isinstance(e.op, ast.Add):
+        l, r = concat_parts(e.left), concat_parts(e.right)
+        return (l if l is not None else [e.left]) + (r if r is not None else [e.right])
+    if isinstance(e, ast.BinOp) and isinstance(e.op, ast.Mod) and isinstance(e.left, ast.Constant) and isinstance(e.left.value, str):
+        args = e.right.elts if isinstance(e.right, ast.Tuple) else [e.right]
+        if e.left.value == '%s' * len(args) and args:
+            return list(args)
+        return None
+    if isinstance(e, ast.Call) and isinstance(e.func, ast.Attribute) and isinstance(e.func.value, ast.Constant) and isinstance(e.func.value.value, str):
+        if e.func.attr == 'format' and not e.keywords and e.args and e.func.value.value in ('{}' * len(e.args), ''.join('{%d}' % i for i in range(len(e.args)))):
+            return list(e.args)
+        if e.func.attr == 'join' and e.func.value.value == '' and len(e.args) == 1 and isinstance(e.args[0], (ast.List, ast.Tuple)) and not e.keywords:
+            return list(e.args[0].elts)
+        return None
+    if isinstance(e, ast.JoinedStr):
+        if e.values and all(isinstance(v, ast.FormattedValue) and v.conversion == -1 and v.format_spec is None for v in e.values):
+            return [v.value for v in e.values]
+        return None
+    return None
+
+
+def fold_const(fi, expr):
+    """Value of a constant expression: literals, module-level constants, and class-level constants read through
+    ``self.NAME`` / ``cls.NAME`` / ``ClassName.NAME``; None when it does not fold."""
+    repo = fi.mod.repo
+    v = repo.try_fold(expr, fi.mod)
+    if v is None and isinstance(expr, ast.Attribute) and isinstance(expr.value, ast.Name) and fi.cls is not None and \
+            expr.value.id in ('self', 'cls', fi.cls.name):
+        owner, val = repo.class_attr(fi.cls, expr.attr)
+        if owner is not None and isinstance(val, ast.AST) and not isinstance(val, (ast.FunctionDef, ast.AsyncFunctionDef)):
+            v = repo.try_fold(val, owner.mod)
+    return v
+
+
+class KwDict(object):
+    """Layer model of a keyword dict built by straight-line code before it is passed on with ``**``:
+    bottom -> top list of ('caller',) / ('src', text) / ('key', name, value expr, stmt); ``setdefault`` and
+    ``if k not in d: d[k] = v`` go to the bottom (an existing entry wins), ``d[k] = v`` / ``update`` / ``dict(d, k=v)`` on top.
+    Every dict-valued local of the function is tracked (the ** parameter starts as the caller's keywords), so
+    ``opts = dict(kwargs, prefix=p)`` after ``kwargs.setdefault(..)`` carries the defaults along."""
+
+    def __init__(self, fi, fl, var, use_stmts):
+        self.fi, self.fl, self.var = fi, fl, var
+        self.stmts = []
+        kwp = _kwarg_name(fi)
+        self.env = {}
+        if kwp is not None:
+            self.env[kwp] = [('caller',)]
+        self._build(fi.node.body)
+        if var not in self.env:
+            raise AnalysisError('%s: %s is not a dict built in this function' % (fi.qualname, var))
+        self.layers = self.env[var]
+        cfg = fl.cfg
+        for st in self.stmts:
+            for u in use_stmts:
+                if not cfg.must_pass(cfg.nodes_of(st), cfg.entry, cfg.nodes_of(u)):
+                    raise AnalysisError('%s: keyword dict %s is modified conditionally (%s)' % (fi.qualname, var, short(st, 60)))
+            loops = [l for l in stmts_of(fi.node) if isinstance(l, (ast.For, ast.While)) and st in stmts_of(l) and l is not st]
+            if loops:
+                raise AnalysisError('%s: keyword dict %s is modified inside a loop' % (fi.qualname, var))
+
+    def _from_expr(self, e):
+        out = []
+        for l in layers_.layers_of_expr(e):
+            if l.kind == 'literal':
+                for k in l.keys:
+                    out.append(('key', k, l.values[k], l.node))
+            elif l.text in self.env:
+                out.extend(self.env[l.text])
+            else:
+                out.append(('src', l.text))
+        return out
+
+    def _default_stmt(self, st):
+        """``d.setdefault(K, V)`` / ``if K not in d: d[K] = V`` -> (d, K expr, V expr) or None."""
+        if isinstance(st, ast.Expr) and isinstance(st.value, ast.Call) and isinstance(st.value.func, ast.Attribute) and \
+                st.value.func.attr == 'setdefault' and norm(st.value.func.value) in self.env and len(st.value.args) == 2 and not st.value.keywords:
+            return norm(st.value.func.value), st.value.args[0], st.value.args[1]
+        if isinstance(st, ast.If) and not st.orelse and len(st.body) == 1 and isinstance(st.test, ast.Compare) and len(st.test.ops) == 1 and \
+                isinstance(st.test.ops[0], ast.NotIn) and norm(st.test.comparators[0]) in self.env:
+            var = norm(st.test.comparators[0])
+            b = st.body[0]
+            if isinstance(b, ast.Assign) and len(b.targets) == 1 and isinstance(b.targets[0], ast.Subscript) and \
+                    norm(b.targets[0].value) == var and norm(b.targets[0].slice) == norm(st.test.left):
+                return var, st.test.left, b.value
+        return None
+
+    def _conditional_writes(self, st, names=None):
+        """``if <test>: d['k'] = v`` (other than the not-in default idiom), possibly inside ``for name in CONSTANTS``: entries
+        that sometimes overwrite whatever the dict held -- [(dict, key, value)]; None when ``st`` is something else."""
+        if isinstance(st, ast.For) and isinstance(st.target, ast.Name) and len(st.body) == 1 and not st.orelse and names is None:
+            consts = fold_const(self.fi, st.iter)
+            if isinstance(consts, (tuple, list)) and all(isinstance(x, str) for x in consts):
+                out = []
+                for x in consts:
+                    sub = self._conditional_writes(st.body[0], (st.target.id, x))
+                    if sub is None:
+                        return None
+                    out.extend(sub)
+                return out
+            return None
+        if isinstance(st, ast.If) and not st.orelse and st.body and all(
+                isinstance(b, ast.Assign) and len(b.targets) == 1 and isinstance(b.targets[0], ast.Subscript) and norm(b.targets[0].value) in self.env
+                for b in st.body):
+            out = []
+            for b in st.body:
+                k = b.targets[0].slice
+                if names is not None and norm(k) == names[0]:
+                    kv = names[1]
+                elif isinstance(k, ast.Constant):
+                    kv = k.value
+                else:
+                    return None
+                out.append((norm(b.targets[0].value), kv, b.value))
+            return out
+        return None
+
+    def _build(self, body):
+        q = self.fi.qualname
+        for st in body:
+            d = self._default_stmt(st)
+            if d is not None:
+                var, k, v = d
+                if not isinstance(k, ast.Constant):
+                    raise AnalysisError('%s: computed key %s in keyword dict %s' % (q, norm(k), var))
+                self.env[var].insert(0, ('key', k.value, v, st))
+                self.stmts.append(st)
+                continue
+            if isinstance(st, ast.For) and isinstance(st.target, ast.Name) and len(st.body) == 1 and not st.orelse:
+                # for name in ('a', 'b') / in MODULE_LEVEL_TUPLE: d.setdefault(name, f(name))
+                names = fold_const(self.fi, st.iter)
+                d = self._default_stmt(st.body[0])
+                if d is not None and norm(d[1]) == st.target.id and isinstance(names, (tuple, list)) and all(isinstance(x, str) for x in names):
+                    from ..normalize import Canon
+                    for x in names:
+                        v = Canon().visit(_subst_name(d[2], st.target.id, x))
+                        self.env[d[0]].insert(0, ('key', x, ast.fix_missing_locations(ast.copy_location(v, d[2])), st))
+                    self.stmts.append(st)
+                    continue
+            if isinstance(st, ast.Assign) and len(st.targets) == 1 and isinstance(st.targets[0], ast.Name):
+                t = st.targets[0].id
+                v = st.value
+                if isinstance(v, ast.Name) and v.id in self.env:
+                    self.env[t] = self.env[v.id]          # alias: the same dict object
+                    self.stmts.append(st)
+                    continue
+                if isinstance(v, ast.Dict) or (isinstance(v, ast.Call) and isinstance(v.func, ast.Name) and v.func.id == 'dict'):
+                    self.env[t] = self._from_expr(v)
+                    self.stmts.append(st)
+                    continue
+                if isinstance(v, ast.Call) and norm(v.func) == 'dict.fromkeys' and 1 <= len(v.args) <= 2 and not v.keywords:
+                    names = fold_const(self.fi, v.args[0])
+                    if isinstance(names, (tuple, list)) and all(isinstance(x, str) for x in names):
+                        val = v.args[1] if len(v.args) == 2 else ast.copy_location(ast.Constant(value=None), v)
+                        self.env[t] = [('key', x, val, st) for x in names]
+                        self.stmts.append(st)
+                        continue
+                if t in self.env:
+                    raise AnalysisError('%s: keyword dict %s re-bound to %s' % (q, t, short(v, 50)))
+                continue
+            if isinstance(st, ast.Assign) and len(st.targets) == 1 and isinstance(st.targets[0], ast.Subscript) and norm(st.targets[0].value) in self.env:
+                k = st.targets[0].slice
+                if not isinstance(k, ast.Constant):
+                    raise AnalysisError('%s: computed key %s in keyword dict %s' % (q, norm(k), norm(st.targets[0].value)))
+                self.env[norm(st.targets[0].value)].append(('key', k.value, st.value, st))
+                self.stmts.append(st)
+                continue
+            if isinstance(st, ast.Expr) and isinstance(st.value, ast.Call) and isinstance(st.value.func, ast.Attribute) and \
+                    norm(st.value.func.value) in self.env and st.value.func.attr == 'update':
+                c = st.value
+                lay = self.env[norm(c.func.value)]
+                for a in c.args:
+                    lay.extend(self._from_expr(a))
+                for k in c.keywords:
+                    if k.arg is None:
+                        lay.extend(self._from_expr(k.value))
+                    else:
+                        lay.append(('key', k.arg, k.value, st))
+                self.stmts.append(st)
+                continue
+            cw = self._conditional_writes(st)
+            if cw is not None:
+                for var, k, v in cw:
+                    self.env[var].append(('key?', k, v, st))
+                self.stmts.append(st)
+                continue
+            # anything else that writes a tracked dict is outside the model
+            if not isinstance(st, (ast.FunctionDef, ast.AsyncFunctionDef, ast.ClassDef)):
+                for e in effects_in(ast.Module(body=[st], type_ignores=[]), nested=False):
+                    if e.root in self.env:
+                        raise AnalysisError('%s: unmodelled write to keyword dict %s: %s' % (q, e.root, short(e.node, 60)))
+                for n in ast.walk(st):
+                    if isinstance(n, ast.Name) and isinstance(n.ctx, ast.Store) and n.id in self.env:
+                        raise AnalysisError('%s: keyword dict %s re-bound in %s' % (q, n.id, short(st, 50)))
+
+    def lookup(self, key):
+        """('forced', value, stmt): a literal entry above everything the caller passed; ('default', value, stmt): a literal
+        entry below the caller's keywords and none above; ('caller', None, None): only the caller can supply it;
+        ('absent', ..): nobody does; ('unknown', ...): an unmodelled source may supply it."""
+        return self._lookup(self.layers, key, 0)
+
+    def _lookup(self, layers, key, depth):
+        top = None
+        for i in range(len(layers) - 1, -1, -1):
+            l = layers[i]
+            if l[0] == 'key?' and l[1] == key:
+                return ('conditional', l[2], l[3])      # sometimes overwrites whatever is below (the caller's value too)
+            if l[0] == 'key' and l[1] == key:
+                top = i
+                break
+            if l[0] in ('src',):
+                return ('unknown', None, None)
+            if l[0] == 'caller':
+                # the caller may or may not pass it: look below for the default
+                for j in range(i - 1, -1, -1):
+                    m = layers[j]
+                    if m[0] == 'key?' and m[1] == key:
+                        return ('unknown', None, None)
+                    if m[0] == 'key' and m[1] == key:
+                        return ('default', m[2], m[3])
+                    if m[0] in ('src', 'caller'):
+                        return ('unknown', None, None)
+                return ('caller', None, None)
+        if top is None:
+            return ('absent', None, None)
+        v = layers[top][2]
+        # d[k] = other.get(k, default): whatever ``other`` holds for k, else the default
+        if isinstance(v, ast.Call) and isinstance(v.func, ast.Attribute) and v.func.attr == 'get' and len(v.args) == 2 and not v.keywords and \
+                norm(v.func.value) in self.env and depth < 3:
+            if not (isinstance(v.args[0], ast.Constant) and v.args[0].value == key):
+                return ('unknown', None, None)
+            how, v2, st2 = self._lookup(self.env[norm(v.func.value)], key, depth + 1)
+            if how == 'caller':
+                return ('default', v.args[1], layers[top][3])
+            if how == 'absent':
+                return ('forced', v.args[1], layers[top][3])
+            if how in ('default', 'forced'):
+                return (how, v2, st2)
+            return ('unknown', None, None)
+        return ('forced', v, layers[top][3])
+
+
+def _enclosing_iteration(mod, node, fnode):
+    cur = mod.parents.get(node)
+    while cur is not None and cur is not fnode:
+        if isinstance(cur, (ast.For, ast.ListComp, ast.GeneratorExp, ast.SetComp, ast.DictComp, ast.While)):
+            return cur
+        cur = mod.parents.get(cur)
+    return None
+
+
+def _strip_copy(e):
+    """list(x) / tuple(x) iterate x in x's order."""
+    while isinstance(e, ast.Call) and isinstance(e.func, ast.Name) and e.func.id in ('list', 'tuple') and len(e.args) == 1 and not e.keywords:
+        e = e.args[0]
+    return e
+
+
+# ------------------------------------------------------------------------------------------------ R10.a
+def _is_comp(n):
+    return isinstance(n, (ast.ListComp, ast.GeneratorExp)) and len(n.generators) == 1 and not n.generators[0].is_async
+
+
+def _filter_generator(repo, fi, e):
+    """``e`` is a call ``helper(seq)`` of a private generator of the package that yields the elements of its argument, in
+    order, under a condition: (loop variable, [(test, polarity)] under which an element is passed on, seq expression)."""
+    callee = callee_of(repo, fi, e) if isinstance(e, ast.Call) else None
+    if callee is None or not callee.name.startswith('_') or e.keywords or len(e.args) != 1 or isinstance(e.args[0], ast.Starred):
+        return None
+    ps = [p for p in callee.params() if p not in ('self', 'cls')]
+    body = [s_ for s_ in callee.node.body if not (isinstance(s_, ast.Expr) and isinstance(s_.value, ast.Constant))]
+    if len(ps) != 1 or not body or not isinstance(body[0], ast.For) or any(not (isinstance(s_, ast.Return) and s_.value is None) for s_ in body[1:]):
+        return None
+    loop = body[0]
+    ys = [n for n in walk_body(callee.node) if isinstance(n, (ast.Yield, ast.YieldFrom))]
+    if len(ys) != 1 or not isinstance(ys[0], ast.Yield) or not isinstance(loop.target, ast.Name) or norm(ys[0].value) != loop.target.id or \
+            norm(loop.iter) != ps[0] or loop.orelse:
+        return None
+    if any(isinstance(s_, (ast.Break, ast.Return)) for s_ in stmts_of(loop)):
+        return None
+    yst = stmt_of(callee.mod, ys[0])
+    # the loop body does nothing but decide whether to yield
+    for s_ in stmts_of(loop):
+        if not (s_ is yst or isinstance(s_, (ast.If, ast.Continue, ast.Pass))):
+            return None
+    return loop.target.id, list(cfg_of(callee).conds_at_stmt(yst)), e.args[0]
+
+
+def _r10a(rep, app, route):
+    ba = app.func('SubApplication.bind_all')
+    fl = Flow(ba)
+    bcfg = fl.cfg
+    fors = [s for s in stmts_of(ba.node) if isinstance(s, (ast.For, ast.While))]
+    comps = [n for n in walk_body(ba.node) if isinstance(n, (ast.ListComp, ast.GeneratorExp, ast.SetComp, ast.DictComp))]
+    its = fors + comps
+    binds = [c for c in walk_body(ba.node) if isinstance(c, ast.Call) and isinstance(c.func, ast.Attribute) and c.func.attr == 'bind']
+    if not binds:
+        raise AnalysisError('SubApplication.bind_all: no .bind(...) call found (re-binding delegated to code that could not be followed)')
+    b = binds[0] if len(binds) == 1 else None
+    it = _enclosing_iteration(app, b, ba.node) if b is not None else None
+    is_loop = isinstance(it, ast.For)
+    # the iterated sequence, through named temporaries, list()/tuple() copies and order-preserving pre-filters
+    # ([rt for rt in <seq> if <test>]); every loop / comprehension of the function must belong to this chain
+    chain_its, prefilters = [it], []
+    it_text = None
+    if is_loop or _is_comp(it):
+        cur = it.iter if is_loop else it.generators[0].iter
+        at = stmt_of(app, cur)
+        for _ in range(4):
+            e, at2 = _deref(fl, _strip_copy(cur), at)
+            e = _strip_copy(e)
+            g = e.generators[0] if _is_comp(e) else None
+            if g is not None and isinstance(e.elt, ast.Name) and isinstance(g.target, ast.Name) and e.elt.id == g.target.id:
+                chain_its.append(e)
+                prefilters.append((g.target.id, [(i, True) for i in g.ifs]))
+                cur, at = g.iter, stmt_of(app, g.iter)
+                continue
+            pf = _filter_generator(rep.repo, ba, e)
+            if pf is not None:
+                prefilters.append(pf[:2])
+                cur = pf[2]
+                continue
+            it_text = fl.text(e, at2 if isinstance(at2, ast.AST) else at)
+            break
+    # any other loop / comprehension of the function must not be able to touch the result
+    rets_ = returns_of(ba)
+    rnames = set(n.id for r in rets_ if r.value is not None for n in ast.walk(r.value) if isinstance(n, ast.Name))
+    strangers = [x for x in its if not any(x is y for y in chain_its)]
+    inert = all(not (set(n.id for n in ast.walk(x) if isinstance(n, ast.Name)) & rnames) and
+                not any(isinstance(n, ast.Call) and isinstance(n.func, ast.Attribute) and n.func.attr == 'bind' for n in ast.walk(x)) for x in strangers)
+    ok = it_text == 'self.app.routes' and inert
+    rep.check('R10.a', fkey(ba, 'iterates inner routes'), ok, 'walks self.app.routes directly (inner order preserved)' if ok else
+              'bind_all does not iterate self.app.routes directly: %s' % (it_text if it_text and it_text != 'self.app.routes' else
+                                                                          [short(getattr(x, 'iter', x), 50) for x in its]), app,
+              it if isinstance(it, ast.stmt) else (stmt_of(app, it) if it is not None else ba.node))
+    if not ok:
+        return
+    rt = norm(it.target if is_loop else it.generators[0].target)
+    kwv = None
+    ok = norm(b.func.value) == rt and len(b.args) == 1 and norm(b.args[0]) == ba.params()[1] and \
+        len(b.keywords) == 1 and b.keywords[0].arg is None and isinstance(b.keywords[0].value, ast.Name)
+    where = b
+    rets = returns_of(ba)
+    appends = []
+    if ok:
+        kwv = b.keywords[0].value.id
+        rv = norm(rets[0].value) if len(rets) == 1 and isinstance(rets[0].value, ast.Name) else None
+        growers = [e for e in effects_in(ba.node) if e.root == rv and e.kind == 'mutcall'] if rv else []
+        if is_loop:
+            # the bound route reaches the returned list through exactly one append in the loop
+            appends = [e.node for e in growers if e.method == 'append' and len(e.node.args) == 1]
+            ok = rv is not None and len(growers) == 1 and len(appends) == 1 and stmt_of(app, appends[0]) in stmts_of(it)
+            if ok:
+                lv = fl.leaves(appends[0].args[0], stmt_of(app, appends[0]))
+                ok = len(lv) == 1 and lv[0].value is b
+        elif growers:
+            # ret = []; ret.extend(<comprehension>); return ret
+            g0 = growers[0]
+            ok = it.elt is b and len(growers) == 1 and g0.method == 'extend' and len(g0.node.args) == 1 and _strip_copy(g0.node.args[0]) is it and \
+                not any(stmt_of(app, g0.node) in stmts_of(l) for l in fors)
+        else:
+            # the comprehension (a list, or a generator materialised by list()) is what is returned
+            ok = it.elt is b and bool(rets)
+            for r in rets:
+                v, _ = _deref(fl, r.value, r)
+                ok = ok and _strip_copy(v) is it and (isinstance(it, ast.ListComp) or v is not it)
+        if ok and (is_loop or growers):
+            rdef = fl.single_def(rv, rets[0])
+            ok = rdef is not None and isinstance(rdef.value, ast.List) and not rdef.value.elts
+    rep.check('R10.a', fkey(ba, 'append rt.bind(app, **kwargs)'), ok, 'each inner route is re-bound to the embedding application with the bind keywords' if ok else
+              'bind_all does not append rt.bind(app, **kwargs) for each inner route', app, where)
+    if not ok:
+        return
+    # conditions under which an inner route is left out: the loop's / comprehension's own, plus those of pre-filters
+    atoms = []
+    for var, cs_ in prefilters:
+        atoms += [(t, p, var) for t, p in expand_conds(list(cs_)) if not isinstance(t, ast.BoolOp)]
+    if is_loop:
+        ast_ = stmt_of(app, appends[0])
+        cs = conds(ba, ast_)
+        atoms += [(t, p, rt) for t, p in cs]
+        ok = True
+        jumps = [s for s in stmts_of(it) if isinstance(s, (ast.Continue, ast.Break))]
+        for j in jumps:
+            jc = conds(ba, j)
+            ok = ok and isinstance(j, ast.Continue) and len(jc) == 1 and jc[0][1] is True and isinstance_test(jc[0][0], rt, 'NullRoute')
+        where = appends[0]
+    else:
+        atoms += [(t, p, rt) for t, p in expand_conds([(i, True) for i in it.generators[0].ifs]) if not isinstance(t, ast.BoolOp)]
+        ok = True
+        where = stmt_of(app, it)
+    ok = ok and len(atoms) == 1 and atoms[0][1] is False and isinstance_test(atoms[0][0], atoms[0][2], 'NullRoute')
+    rep.check('R10.a', fkey(ba, 'skips only the null route'), ok, 'only NullRoute instances are skipped' if ok else
+              'routes are skipped under other conditions than isinstance(rt, NullRoute): %s' % '; '.join(cond_texts([(t, p) for t, p, _ in atoms])), app, where)
+    if is_loop:
+        ap_nodes = bcfg.nodes_of(ast_)
+        ok = not (set(ap_nodes) & bcfg.reach([m for n in ap_nodes for m in bcfg.succ[n]], avoid=bcfg.nodes_of(it)))
+        rep.check('R10.a', fkey(ba, 'once per route'), ok, 'each inner route is re-bound once' if ok else 'an inner route can be appended twice', app, appends[0])
+        use = it
+    else:
+        rep.ok('R10.a', fkey(ba, 'once per route'), 'each inner route is re-bound once (one element per item of a single generator)', app, stmt_of(app, it))
+        use = stmt_of(app, it)
+    kd = KwDict(ba, fl, kwv, [use])
+    how, v, st = kd.lookup('prefix')
+    ok = how == 'forced' and norm(v) == 'self.prefix'
+    rep.check('R10.a', fkey(ba, 'prefix keyword'), ok, "the bind keywords carry prefix = self.prefix (over anything the caller passed) before any route is re-bound" if ok else
+              'the embedding prefix is not passed to the re-bound routes (%s %s)' % (how, short(v, 40) if v is not None else ''), app, st or ba.node)
+    return kd
+
+
+def _constructions(repo, fi, cls_name, param, _depth=0):
+    """[(call, prop, formulas of the conditions, name of the entry parameter)] of the ``return <cls_name>(...)`` statements of
+    ``fi`` -- the class named directly or through a local that selects it (``factory_type = SubApplication if .. else
+    Route``) -- and of private helpers of the module whose result ``fi`` returns (followed one level; ``param`` is
+    mapped to the helper's parameter it is passed as)."""
+    fl = Flow(fi)
+    pr = Prop(fl)
+    out = []
+    for r in returns_of(fi):
+        for lf in fl.leaves(r.value, r) if r.value is not None else []:
+            v = lf.value
+            if lf.opaque or not isinstance(v, ast.Call):
+                continue
+            here = lf.stmt if isinstance(lf.stmt, ast.AST) else r
+            conds_ = list(lf.conds) + [c for c in fl.conds(r) if c not in lf.conds] + [c for c in fl.conds(here) if c not in lf.conds]
+            for cl in fl.leaves(v.func, here):
+                if not cl.opaque and norm(cl.value) == cls_name:
+                    out.append((v, pr, pr.conds(conds_ + [c for c in cl.conds if c not in conds_]), param))
+            callee = callee_of(repo, fi, v)
+            if callee is not None and callee.name.startswith('_') and _depth < 1 and not v.keywords and \
+                    not any(isinstance(a, ast.Starred) for a in v.args) and len(v.args) <= len(callee.params()):
+                passed = [i for i, a in enumerate(v.args) if norm(a) == param]
+                if len(passed) == 1:
+                    out.extend(_constructions(repo, callee, cls_name, callee.params()[passed[0]], _depth + 1))
+    return out
+
+
+def _r10a_cast(rep, app):
+    crf = app.func('cast_to_route_factory')
+    try:
+        subs = _constructions(rep.repo, crf, 'SubApplication', crf.params()[0])
+        ok = len(subs) == 1
+        if ok:
+            call, pr, premises, p0 = subs[0]
+            ok = len(call.args) == 1 and not call.keywords and norm(call.args[0]) == '*%s' % p0 and \
+                pr.implies(premises, ('a', 'isinstance(%s[1], Application)' % p0))
+    except Unknown as e:
+        raise AnalysisError('cast_to_route_factory: conditions not understood (%s)' % e)
+    if not subs:
+        # nothing found: a result computed by a helper that could not be followed is a gap, not a judgement
+        cfl = Flow(crf)
+        _require_followed(rep.repo, crf, [l for r in returns_of(crf) if r.value is not None for l in cfl.leaves(r.value, r)], 'the route factory')
+    rep.check('R10.a', fkey(crf), ok, '(prefix, Application) tuples become SubApplication(prefix, app)' if ok else
+              'cast_to_route_factory no longer maps (prefix, Application) to SubApplication(*entry)', app, crf.node)
+
+
+def _add_view(app):
+    """(fi, flow, route-factory local, [bind_all call statements], [bind call statements], ** dict name)"""
+    ad = app.func('Application.add')
+    fl = Flow(ad)
+    rfv = [norm(s.targets[0]) for s in stmts_of(ad.node) if isinstance(s, ast.Assign) and isinstance(s.value, ast.Call)
+           and call_name(s.value) == 'cast_to_route_factory' and len(s.targets) == 1 and isinstance(s.targets[0], ast.Name)]
+    if len(rfv) != 1:
+        raise AnalysisError('Application.add: the route factory (result of cast_to_route_factory) is not bound to one local')
+    rf = rfv[0]
+    ball, bone = [], []
+    for c in walk_body(ad.node):
+        if not isinstance(c, ast.Call):
+            continue
+        ft = fl.text(c.func, stmt_of(app, c))
+        if ft in ('%s.bind_all' % rf, "getattr(%s, 'bind_all', None)" % rf):
+            ball.append(c)
+        elif ft == '%s.bind' % rf:
+            bone.append(c)
+    return ad, fl, rf, ball, bone
+
+
+def _r10a_add(rep, app):
+    ad, fl, rf, ball, bone = _add_view(app)
+    ok = False
+    if len(ball) == 1:
+        want = "getattr(%s, 'bind_all', None)" % rf
+        ok = any(p is True and want in txt for txt, p, _ in fl.cond_texts(conds(ad, ball[0])))
+        # the result is what gets inserted
+        st = stmt_of(app, ball[0])
+        ok = ok and isinstance(st, ast.Assign) and st.value is ball[0]
+    rep.check('R10.a', fkey(ad, 'uses bind_all'), ok, 'add() expands route factories through bind_all' if ok else 'add() does not use bind_all for sub-applications', app, ad.node)
+
+
+# ------------------------------------------------------------------------------------------------ R10.b
+def _getattr_cases(fl, mod, leaf):
+    """[(object text, attribute, present?)]: the leaf flows only when ``hasattr(obj, attr)`` is / is not true -- from an explicit
+    ``hasattr`` test on the path, or from ``try: x = obj.attr / except AttributeError: x = default``."""
+    from ..astutil import handler_catches
+    out = []
+    for t, p in leaf.conds:
+        if isinstance(t, ast.Call) and call_name(t) == 'hasattr' and len(t.args) == 2 and isinstance(t.args[1], ast.Constant):
+            out.append((norm(t.args[0]), t.args[1].value, p))
+    st = leaf.stmt if isinstance(leaf.stmt, ast.AST) else None
+    par = mod.parents.get(st) if st is not None else None
+
+    def attr_read(try_):
+        if len(try_.body) == 1 and isinstance(try_.body[0], ast.Assign) and isinstance(try_.body[0].value, ast.Attribute) and \
+                not try_.orelse and not try_.finalbody and len(try_.handlers) == 1 and handler_catches(try_.handlers[0], 'AttributeError') and \
+                norm(try_.handlers[0].type) == 'AttributeError':
+            v = try_.body[0].value
+            return norm(v.value), v.attr
+        return None
+    if isinstance(par, ast.Try) and st in par.body and attr_read(par):
+        out.append(attr_read(par) + (True,))
+    if isinstance(par, ast.ExceptHandler):
+        t_ = mod.parents.get(par)
+        if isinstance(t_, ast.Try) and attr_read(t_) and len(par.body) == 1:
+            out.append(attr_read(t_) + (False,))
+    return out
+
+
+def _specialise(expected, cases):
+    """``expected`` with ``getattr(obj, 'attr', default)`` replaced by what it is when the attribute is known present / absent;
+    ``[] + x`` simplified to ``x``."""
+    known = dict(((o, a), p) for o, a, p in cases)
+
+    class S(ast.NodeTransformer):
+        def visit_Call(self, n):
+            self.generic_visit(n)
+            if call_name(n) == 'getattr' and len(n.args) == 3 and isinstance(n.args[1], ast.Constant) and (norm(n.args[0]), n.args[1].value) in known:
+                if known[(norm(n.args[0]), n.args[1].value)]:
+                    return ast.Attribute(value=n.args[0], attr=n.args[1].value, ctx=ast.Load())
+                return n.args[2]
+            return n
+
+        def visit_BinOp(self, n):
+            self.generic_visit(n)
+            if isinstance(n.op, ast.Add) and isinstance(n.left, ast.List) and not n.left.elts and isinstance(n.right, ast.List):
+                return n.right
+            return n
+    return S().visit(copy.deepcopy(expected))
+
+
+def _slot_is(fl, mod, slot, expected_text, what):
+    """The slot holds ``expected`` at exit: one value with that text, or the case split of its getattr defaults (hasattr
+    tests / try-except AttributeError).  Several values that cannot be read as such a split: analysis gap."""
+    lv = fl.leaves(_expr(slot), 'exit')
+    if not fl.defs.get(slot):
+        return False, None
+    if len(lv) == 1:
+        return (not lv[0].opaque) and fl.text(lv[0].value, lv[0].stmt) == expected_text, lv[0]
+    cases = [_getattr_cases(fl, mod, l) for l in lv]
+    if any(l.opaque for l in lv) or not all(cases):
+        raise AnalysisError('%s: %s has several definitions that are not understood as one value' % (fl.fi.qualname, what))
+    pols = set((o, a, p) for c in cases for o, a, p in c)
+    ok = all(fl.text(l.value, l.stmt) == norm(_specialise(_expr(expected_text), c)) for l, c in zip(lv, cases)) and \
+        all((o, a, not p) in pols for o, a, p in pols)
+    return ok, lv[0]
+
+
+def _single_leaf(fl, slot):
+    lv = fl.leaves(_expr(slot), 'exit')
+    if len(lv) == 1 and not lv[0].opaque:
+        return lv[0]
+    return None
+
+
+def _r10b(rep, app, route):
+    bi = route.func('BoundRoute.__init__')
+    fl = Flow(bi)
+    ps = bi.params()
+    kw = _kwarg_name(bi)
+    flags = Flags(fl, bi)
+    lf = _single_leaf(fl, 'self.pattern')
+    parts = concat_parts(lf.value) if lf is not None else None
+    kv = flags.key_of(parts[0], lf.stmt) if parts else None
+    ok = parts is not None and len(parts) == 2 and kv is not None and kv[0] == 'prefix' and fl.text(parts[1], lf.stmt) == '%s.pattern' % ps[1]
+    rep.check('R10.b', fkey(bi, 'self.pattern'), ok, 'bound pattern = prefix + (already bound) inner pattern, so prefixes compose by depth' if ok else
+              'BoundRoute.pattern is not prefix + route.pattern: %s' % (short(lf.value) if lf else None), route, lf.stmt if lf else bi.node)
+    dflt = flags.default_is('prefix', '')
+    if dflt is None:
+        raise AnalysisError("BoundRoute.__init__: no read of the bind keyword 'prefix' recognised")
+    rep.check('R10.b', fkey(bi, 'prefix default'), dflt, "prefix comes from the bind keyword, default ''" if dflt else 'prefix is not kwargs.pop(\'prefix\', \'\')', route, bi.node)
+    si = app.func('SubApplication.__init__')
+    sfl = Flow(si)
+    lf = _single_leaf(sfl, 'self.prefix')
+    ok = lf is not None and sfl.text(lf.value, lf.stmt) == "%s.rstrip('/')" % si.params()[1]
+    rep.check('R10.b', fkey(si, 'self.prefix'), ok, "prefix is stored without a trailing slash ('/' merges at root level)" if ok else
+              "SubApplication.prefix is not prefix.rstrip('/')", app, si.node)
+    lf = _single_leaf(sfl, 'self.app')
+    ok = lf is not None and sfl.text(lf.value, lf.stmt) == si.params()[2]
+    rep.check('R10.b', fkey(si, 'self.app'), ok, 'the embedded application is kept as given' if ok else 'SubApplication.app is not the given application', app, si.node)
+    ok, _ = _slot_is(fl, route, 'self.unbound_route', "getattr(%s, 'unbound_route', %s)" % (ps[1], ps[1]), 'self.unbound_route')
+    rep.check('R10.b', fkey(bi, 'unbound_route'), ok, 'endpoint/render always come from the original unbound route, at any depth' if ok else
+              'unbound_route is not carried through re-binding', route, bi.node)
+    prev = "getattr(%s, 'bound_apps', [])" % ps[1]
+    ok, lf = _slot_is(fl, route, 'self.bound_apps', "%s + [%s]" % (prev, ps[2]), 'self.bound_apps')
+    if not ok and lf is not None and isinstance(lf.value, ast.Call) and call_name(lf.value) == 'list' and len(lf.value.args) == 1 and \
+            fl.text(lf.value.args[0], lf.stmt) == prev:
+        # a copy of the previous list, then exactly one unconditional append of the binding application
+        muts = [e for e in effects_in(bi.node) if (e.chain or [])[:2] == ['self', 'bound_apps'] and not (e.kind == 'store' and e.node is lf.stmt)]
+        cfg_ = fl.cfg
+        ok = len(muts) == 1 and muts[0].kind == 'mutcall' and muts[0].method == 'append' and [norm(a) for a in muts[0].node.args] == [ps[2]] and \
+            cfg_.must_pass(cfg_.nodes_of(stmt_of(route, muts[0].node)), cfg_.entry, cfg_.exit, normal_only=True)
+    rep.check('R10.b', fkey(bi, 'bound_apps'), ok, 'bound_apps grows inner -> outer; [-1] is the serving application' if ok else
+              'bound_apps is not extended with the binding application at the end', route, bi.node)
+
+
+# ------------------------------------------------------------------------------------------------ R10.d
+def _receivers(fi, fl, attrs):
+    out = []
+    for n in walk_body(fi.node):
+        if isinstance(n, ast.Attribute) and n.attr in attrs and isinstance(n.ctx, ast.Load):
+            out.append(fl.text(n.value, stmt_of(fi.mod, n)))
+    return out
+
+
+def _r10d(rep, app, route):
+    repo = rep.repo
+    bi = route.func('BoundRoute.__init__')
+    fl = Flow(bi)
+    ps = bi.params()
+    flags = Flags(fl, bi)
+    pr = Prop(fl, flags)
+    lv = fl.leaves(_expr('self.render_error'), 'exit')
+    _require_followed(repo, bi, lv, 'self.render_error')
+    rre = ('a', 'keyword:rebind_render_error')
+    app_values = ("getattr(%s.error_handler, 'render_error', None)" % ps[2], '%s.error_handler.render_error' % ps[2])
+    try:
+        from_app = [l for l in lv if not l.opaque and fl.text(l.value, l.stmt) in app_values]
+        from_route = [l for l in lv if not l.opaque and fl.text(l.value, l.stmt) == '%s.render_error' % ps[1]]
+        ok = bool(from_app) and bool(from_route) and len(from_app) + len(from_route) == len(lv) and \
+            all(pr.implies(pr.conds(l.conds), rre) for l in from_app) and all(pr.implies(pr.conds(l.conds), ('n', rre)) for l in from_route)
+    except Unknown as e:
+        raise AnalysisError('BoundRoute.__init__: conditions of the render_error selection not understood (%s)' % e)
+    rep.check('R10.d', fkey(bi, 'render_error source'), ok, 'render_error is the binding application\'s error handler\'s (unless rebind_render_error is off)' if ok else
+              'render_error is not taken from app.error_handler when re-binding: %s' % [short(l.value, 60) for l in lv], route,
+              (lv[0].stmt if lv and isinstance(lv[0].stmt, ast.AST) else bi.node))
+    dflt = flags.default_is('rebind_render_error', True)
+    if dflt is None:
+        raise AnalysisError("BoundRoute.__init__: no read of the bind keyword 'rebind_render_error' recognised")
+    rep.check('R10.d', fkey(bi, 'rebind_render_error default'), dflt, 'rebind_render_error defaults to True' if dflt else 'rebind_render_error does not default to True', route, bi.node)
+    offs = []
+    for m in repo.all_internal_modules():
+        for n in ast.walk(m.tree):
+            if isinstance(n, ast.keyword) and n.arg == 'rebind_render_error':
+                offs.append((m, n))
+            if isinstance(n, ast.Constant) and n.value == 'rebind_render_error' and m.name != ROUTE:
+                offs.append((m, n))
+    rep.check('R10.d', 'clastic::rebind_render_error callers', not offs, 'no caller in the package switches rebind_render_error off' if not offs else
+              'rebind_render_error is passed at %s' % [(m.relpath, n.value.lineno if hasattr(n, 'value') and hasattr(n.value, 'lineno') else '?') for m, n in offs], route)
+    stores = fl.defs.get('self.render_error', [])
+    ok = bool(lv) and not any(l.opaque for l in lv) and all(d.kind == 'assign' and d.idx is None for d in stores)
+    rep.check('R10.d', fkey(bi, 'self.render_error'), ok, 'the selected render_error is stored on the bound route' if ok else 'self.render_error is not the selected renderer', route, bi.node)
+    cre = [c for c in walk_body(bi.node) if isinstance(c, ast.Call) and call_name(c) == 'check_render_error']
+    sel = fl.aliases('self.render_error')
+    res = fl.aliases('self.resources')
+    ok = len(cre) == 1 and len(cre[0].args) == 2 and not cre[0].keywords and norm(cre[0].args[0]) in sel and norm(cre[0].args[1]) in res and \
+        any(p is True and isinstance(t, ast.Call) and call_name(t) == 'callable' and len(t.args) == 1 and norm(t.args[0]) in sel for t, p in conds(bi, cre[0]))
+    rep.check('R10.d', fkey(bi, 'check_render_error'), ok, 'the error renderer\'s arguments are checked against the merged resources at bind time' if ok else
+              'render_error is not checked against self.resources at bind time', route, bi.node)
+    d = app.func('Application.dispatch')
+    rc = _receivers(d, Flow(d), ('not_found_type', 'uncaught_to_response', 'method_not_allowed_type'))
+    if not rc:
+        raise AnalysisError('Application.dispatch: no use of an error handler (not_found_type / uncaught_to_response) found')
+    ok = all(r == 'self.error_handler' for r in rc)
+    rep.check('R10.d', fkey(d, 'err_handler'), ok, 'uncaught errors and 404/405 types come from the serving application\'s error handler' if ok else
+              'dispatch does not consult self.error_handler: %s' % sorted(set(rc)), app, d.node)
+    hs = route.func('NullRoute.handle_sentinel_condition')
+    rc = _receivers(hs, Flow(hs), ('not_found_type', 'method_not_allowed_type'))
+    if not rc:
+        raise AnalysisError('NullRoute.handle_sentinel_condition: no use of an error handler found')
+    ok = all(r == '_application.error_handler' for r in rc)
+    rep.check('R10.d', fkey(hs, 'err_handler'), ok, 'the null route asks the serving application for its error types' if ok else
+              'the null route does not use _application.error_handler: %s' % sorted(set(rc)), route, hs.node)
+
+
+# ------------------------------------------------------------------------------------------------ R10.e
+def _r10e_plumbing(rep, app, route, kd):
+    bi = route.func('BoundRoute.__init__')
+    si = app.func('SubApplication.__init__')
+    ba = app.func('SubApplication.bind_all')
+    dflt = Flags(Flow(bi), bi).default_is('rebind_render', True)
+    if dflt is None:
+        raise AnalysisError("BoundRoute.__init__: no read of the bind keyword 'rebind_render' recognised")
+    rep.check('R10.e', fkey(bi, 'rebind_render default'), dflt, 'plain routes re-bind their render argument by default' if dflt else 'rebind_render does not default to True', route, bi.node)
+    a = si.node.args
+    dflt = dict(zip([x.arg for x in a.args][len(a.args) - len(a.defaults):], a.defaults))
+    sfl = Flow(si)
+    lf = _single_leaf(sfl, 'self.rebind_render')
+    ok = isinstance(dflt.get('rebind_render'), ast.Constant) and dflt['rebind_render'].value is False and \
+        lf is not None and sfl.text(lf.value, lf.stmt) == 'rebind_render'
+    rep.check('R10.e', fkey(si, 'rebind_render'), ok, 'embedded routes keep their own renderers unless re-binding is requested (default False)' if ok else
+              'SubApplication(rebind_render=False) default / storage changed', app, si.node)
+    if kd is None:
+        raise AnalysisError('SubApplication.bind_all: bind keyword dict not identified (see R10.a)')
+    how, v, st = kd.lookup('rebind_render')
+    ok = how == 'default' and norm(v) == 'self.rebind_render'
+    rep.check('R10.e', fkey(ba, 'rebind_render forwarded'), ok, 'bind_all forwards self.rebind_render (a caller\'s value wins)' if ok else
+              'bind_all does not forward self.rebind_render (%s %s)' % (how, short(v, 40) if v is not None else ''), app, st or ba.node)
+    ad, afl, rf, ball, bone = _add_view(app)
+    calls = ball + bone
+    kws = set(norm(k.value) for c in calls for k in c.keywords if k.arg is None)
+    if len(kws) != 1 or not calls:
+        raise AnalysisError('Application.add: the bind calls do not pass one keyword dict (%s)' % sorted(kws))
+    akd = KwDict(ad, afl, kws.pop(), [stmt_of(app, c) for c in calls])
+    how, v, st = akd.lookup('rebind_render')
+    ok = how == 'default' and afl.text(v, st) == "getattr(%s, 'rebind_render', True)" % rf
+    rep.check('R10.e', fkey(ad, 'rebind_render default'), ok, 'add() defaults rebind_render from the route factory' if ok else
+              'add() does not default rebind_render from the factory (%s %s)' % (how, short(v, 40) if v is not None else ''), app, st or ad.node)
+
+
+def _newest_factory(fl, pr, route, leaf):
+    """The callee of the factory branch is the factory of the most recently bound application that has a callable one:
+    ``first(reversed([.. for ba in self.bound_apps]), key=callable)`` or the equivalent search loop."""
+    bound_apps = fl.aliases('self.bound_apps')
+
+    def factories_of_bound_apps(e, at):
+        e, at = _deref(fl, e, at)
+        return isinstance(e, ast.ListComp) and len(e.generators) == 1 and not e.generators[0].ifs and \
+            norm(e.generators[0].iter) in bound_apps or (isinstance(e, ast.ListComp) and len(e.generators) == 1 and not e.generators[0].ifs and
+                                                         fl.text(e.generators[0].iter, fl.stmt_of(e)) in bound_apps)
+
+    def newest_first(e, at):
+        e, at = _deref(fl, e, at)
+        return isinstance(e, ast.Call) and call_name(e) == 'reversed' and len(e.args) == 1 and not e.keywords and factories_of_bound_apps(e.args[0], at)
+    key = slot_key(leaf.value.func)
+    d = fl.single_def(key, leaf.stmt)
+    if d is not None and isinstance(d.value, ast.Call) and call_name(d.value) == 'next':
+        # next((f for f in reversed(candidates) if callable(f)), None)
+        v = d.value
+        g = v.args[0] if len(v.args) == 2 and not v.keywords and norm(v.args[1]) == 'None' else None
+        if isinstance(g, ast.GeneratorExp) and len(g.generators) == 1 and isinstance(g.generators[0].target, ast.Name):
+            var = g.generators[0].target.id
+            return norm(g.elt) == var and [norm(i) for i in g.generators[0].ifs] == ['callable(%s)' % var] and newest_first(g.generators[0].iter, d.stmt)
+        return False
+    if d is not None:
+        v = d.value
+        return isinstance(v, ast.Call) and call_name(v) == 'first' and len(v.args) >= 1 and norm(argn(v, 'key', 2)) == 'callable' and \
+            (argn(v, 'default', 1) is None or norm(argn(v, 'default', 1)) == 'None') and newest_first(v.args[0], d.stmt)
+    # the search spelled out: factory = None; for c in reversed(<factories>): if callable(c): factory = c; break
+    # (or over reversed(<bound apps>) with c = getattr(app_, 'render_factory', None) inside; None also from the loop's else)
+    lv = fl.leaves(leaf.value.func, leaf.stmt)
+    none = [l for l in lv if not l.opaque and isinstance(l.value, ast.Constant) and l.value.value is None]
+    found = [l for l in lv if l not in none]
+    if len(found) != 1 or not none:
+        return False
+    f0 = found[0]
+    sets = [d_.stmt for d_ in fl.reaching(key, leaf.stmt) if d_.kind == 'assign' and isinstance(d_.stmt, ast.Assign) and
+            not (isinstance(d_.value, ast.Constant) and d_.value.value is None)]
+    if len(sets) != 1:
+        return False
+    loops = [l for l in stmts_of(fl.fi.node) if isinstance(l, ast.For) and sets[0] in stmts_of(l)]
+    if len(loops) != 1:
+        return False
+    loop = loops[0]
+    var = norm(loop.target)
+    if f0.opaque and f0.stmt is loop:
+        by_value = newest_first(loop.iter, loop) and norm(sets[0].value) == var
+        cand = var
+    else:
+        it, _ = _deref(fl, loop.iter, loop)
+        by_value = not f0.opaque and isinstance(it, ast.Call) and call_name(it) == 'reversed' and len(it.args) == 1 and \
+            (norm(it.args[0]) in bound_apps or fl.text(it.args[0], loop) in bound_apps) and \
+            norm(f0.value) in ("getattr(%s, 'render_factory', None)" % var, '%s.render_factory' % var)
+        cand = norm(sets[0].value)
+    if not by_value:
+        return False
+    for s_ in loop.orelse:
+        if not (isinstance(s_, ast.Assign) and all(slot_key(t) == key for t in s_.targets) and isinstance(s_.value, ast.Constant) and s_.value.value is None):
+            return False
+    parent = route.parents.get(sets[0])
+    body = parent.body if isinstance(parent, ast.If) and sets[0] in parent.body else None
+    return body is not None and isinstance(body[-1], ast.Break) and not parent.orelse and \
+        fl.text(parent.test, parent) in ('callable(%s)' % cand, 'callable(%s)' % fl.text(sets[0].value, sets[0])) and parent in loop.body and \
+        len([x for x in stmts_of(loop) if isinstance(x, (ast.Break, ast.Continue, ast.Return))]) == 1
+
+
+def _r10e_render(rep, app, route):
+    bi = route.func('BoundRoute.__init__')
+    fl = Flow(bi)
+    ps = bi.params()
+    flags = Flags(fl, bi)
+    pr = Prop(fl, flags)
+    ur_text = "getattr(%s, 'unbound_route', %s)" % (ps[1], ps[1])
+    ok_ur, _ = _slot_is(fl, route, 'self.unbound_route', ur_text, 'self.unbound_route')
+    if not ok_ur:
+        raise AnalysisError('BoundRoute.__init__: self.unbound_route is not the original unbound route (see R10.b)')
+    for k in fl.aliases('self.unbound_route'):
+        fl.subst[k] = _expr(ur_text)
+    ur_render = '%s.render' % ur_text
+    prev_render = '%s.render' % ps[1]
+    if flags.default_is('rebind_render', True) is None:
+        raise AnalysisError("BoundRoute.__init__: no read of the bind keyword 'rebind_render' recognised")
+    lv = fl.leaves(_expr('self.render'), 'exit')
+    _require_followed(rep.repo, bi, lv, 'self.render')
+    explicit = ('a', 'callable(%s)' % ur_render)
+    prev_callable = ('a', 'callable(%s)' % prev_render)
+    # re-binding applies when requested, or when nothing callable was bound yet
+    BR = ('|', [('a', 'keyword:rebind_render'), ('a', '%s is _noop_render' % prev_render), ('n', prev_callable)])
+
+    def text(l):
+        return fl.text(l.value, l.stmt) if isinstance(l.stmt, ast.AST) else norm(l.value)
+    known = [l for l in lv if not l.opaque]
+    expl = [l for l in known if text(l) == ur_render]
+    fac = [l for l in known if isinstance(l.value, ast.Call) and len(l.value.args) == 1 and not l.value.keywords
+           and slot_key(l.value.func) is not None and fl.text(l.value.args[0], l.stmt) == ur_render]
+    keep = [l for l in known if text(l) == prev_render and l not in expl]
+    noop = [l for l in known if norm(l.value) == '_noop_render']
+    others = [l for l in lv if l not in expl and l not in fac and l not in keep and l not in noop]
+    try:
+        P = dict((id(l), pr.conds(l.conds)) for l in lv)
+        ok = len(expl) == 1 and pr.implies(P[id(expl[0])], explicit) and all(pr.implies(P[id(l)], ('n', explicit)) for l in lv if l is not expl[0])
+        rep.check('R10.e', fkey(bi, 'explicit render wins'), ok, 'an explicit callable render always takes precedence' if ok else
+                  'explicit callable renders no longer take precedence', route, bi.node)
+        ok = len(fac) == 1 and pr.implies(P[id(fac[0])], ('n', explicit)) and pr.implies(P[id(fac[0])], BR)
+        rep.check('R10.e', fkey(bi, 'factory branch'), ok, 'a render argument is re-interpreted by a render factory only when re-binding applies' if ok else
+                  'the render-factory branch is not conditioned on bind_render', route, fac[0].stmt if fac else bi.node)
+        ok = bool(keep) and bool(noop) and not others and all(pr.implies(P[id(l)], prev_callable) for l in keep) and \
+            all(pr.implies(P[id(l)], ('n', prev_callable)) for l in noop)
+        rep.check('R10.e', fkey(bi, 'carry-through branch'), ok, 'otherwise the previously bound renderer is carried through' if ok else
+                  'the carry-through branch of render selection changed: %s' % [short(l.value, 40) for l in keep + noop + others], route,
+                  (others or keep or noop or [None])[0].stmt if (others or keep or noop) and isinstance((others or keep or noop)[0].stmt, ast.AST) else bi.node)
+        # ... and *whenever* it applies (and a factory / a render argument exist): on the carry-through paths, under the
+        # other conditions of the factory branch, re-binding does not apply
+        ok = len(fac) == 1
+        if ok:
+            br_atoms = pr.atoms(BR)
+            side = [f for f in P[id(fac[0])] if not (pr.atoms(f) & br_atoms)]
+            ok = bool(keep + noop) and all(pr.implies(P[id(l)] + side, ('n', BR)) for l in keep + noop)
+        rep.check('R10.e', fkey(bi, 'bind_render'), ok, 're-binding applies when requested or when nothing callable was bound yet' if ok else
+                  'bind_render is not "rebind_render or route.render is _noop_render or not callable(route.render)"', route, bi.node)
+    except Unknown as e:
+        raise AnalysisError('BoundRoute.__init__: conditions of the render selection not understood (%s)' % e)
+    ok = len(fac) == 1 and _newest_factory(fl, pr, route, fac[0])
+    rep.check('R10.e', fkey(bi, 'render factory'), ok, 'the render factory is that of the most recently bound (outermost) application that has one' if ok else
+              'render factory selection is not first(reversed([...bound_apps...]), key=callable)', route, bi.node)
+    stores = fl.defs.get('self.render', [])
+    ok = bool(lv) and not any(l.opaque for l in lv) and all(d.kind == 'assign' for d in stores)
+    rep.check('R10.e', fkey(bi, 'self.render'), ok, 'the selected renderer is stored and used for the chain' if ok else 'self.render is not the selected renderer', route, bi.node)
+
+
+def _safe(fn):
+    """A Python exception inside a rule group is an analysis gap of that group, never a crash of the check."""
+    def wrapped(*a, **k):
+        try:
+            return fn(*a, **k)
+        except AnalysisError:
+            raise
+        except Exception as e:      # pragma: no cover
+            raise AnalysisError('internal error in rule group %s: %s: %s' % (fn.__name__, type(e).__name__, e))
+    wrapped.__name__ = getattr(fn, '__name__', 'rule group')
+    return wrapped
 
 
 def run(rep):
     repo = rep.repo
     app, route = repo.mod(APP), repo.mod(ROUTE)
+    _guard = rep.guard
+    rep_guard = lambda fn, *a, **k: _guard(_safe(fn), *a, **k)
     rep.decide('R10.a every inner route re-bound in order with the prefix; R10.b prefix composition; R10.c middleware / '
                'resource precedence; R10.d outer error handling; R10.e renderer / slash plumbing')
     rep.decline('response equivalence nested vs flat (behavioural); render_factory selection as a value computation')
@@ -43,189 +1212,62 @@ def run(rep):
     rep.rule('R10.e', 'kwarg-name agreement and render selection branches')
 
     # ---- R10.a -----------------------------------------------------------
-    ba = app.func('SubApplication.bind_all')
-    bcfg = cfg_of(ba)
-    loops = [s for s in stmts_of(ba.node) if isinstance(s, ast.For)]
-    ok = len(loops) == 1 and norm(loops[0].iter) == 'self.app.routes'
-    rep.check('R10.a', fkey(ba, 'iterates inner routes'), ok, 'walks self.app.routes directly (inner order preserved)' if ok else
-              'bind_all does not iterate self.app.routes directly: %s' % (norm(loops[0].iter) if loops else None), app, loops[0] if loops else ba.node)
-    if not ok:
-        return
-    lp = loops[0]
-    rt = norm(lp.target)
-    rets = returns_of(ba)
-    rv = norm(rets[0].value) if len(rets) == 1 else None
-    apps = [c for c in ast.walk(lp) if isinstance(c, ast.Call) and norm(c.func) == '%s.append' % rv]
-    ok = len(apps) == 1
-    if ok:
-        v = apps[0].args[0]
-        if isinstance(v, ast.Name):
-            srcs = [s.value for s in lp.body if isinstance(s, ast.Assign) and norm(s.targets[0]) == v.id]
-            v = srcs[0] if len(srcs) == 1 else v
-        ok = isinstance(v, ast.Call) and norm(v.func) == '%s.bind' % rt and norm(v.args[0]) == ba.params()[1] and \
-            any(k.arg is None and norm(k.value) == 'kwargs' for k in v.keywords)
-    rep.check('R10.a', fkey(ba, 'append rt.bind(app, **kwargs)'), ok, 'each inner route is re-bound to the embedding application with the bind keywords' if ok else
-              'bind_all does not append rt.bind(app, **kwargs) for each inner route', app, apps[0] if apps else lp)
-    if apps:
-        cs = conds(ba, apps[0])
-        skips = [t for t, p in cs]
-        ok = len(cs) == 1 and cs[0][1] is False and norm(cs[0][0]) == 'isinstance(%s, NullRoute)' % rt
-        conts = [s for s in ast.walk(lp) if isinstance(s, (ast.Continue, ast.Break))]
-        ok = ok and len(conts) == 1 and isinstance(conts[0], ast.Continue)
-        rep.check('R10.a', fkey(ba, 'skips only the null route'), ok, 'only NullRoute instances are skipped' if ok else
-                  'routes are skipped under other conditions than isinstance(rt, NullRoute): %s' % '; '.join(cond_texts(cs)), app, apps[0])
-        # exactly one append per iteration
-        iter_nodes = [n.id for n in bcfg.nodes if n.kind == 'iter' and n.stmt is lp]
-        ap_nodes = bcfg.nodes_of(stmt_of(app, apps[0]))
-        ok = not (set(ap_nodes) & bcfg.reach([m for n in ap_nodes for m in bcfg.succ[n]], avoid=bcfg.nodes_of(lp)))
-        rep.check('R10.a', fkey(ba, 'once per route'), ok, 'each inner route is re-bound once' if ok else 'an inner route can be appended twice', app, apps[0])
-    pf = [s for s in stmts_of(ba.node) if isinstance(s, ast.Assign) and norm(s.targets[0]) == "kwargs['prefix']"]
-    ok = len(pf) == 1 and norm(pf[0].value) == 'self.prefix' and bcfg.must_pass(bcfg.nodes_of(pf[0]), bcfg.entry, bcfg.nodes_of(lp))
-    rep.check('R10.a', fkey(ba, 'prefix keyword'), ok, "kwargs['prefix'] = self.prefix before any route is re-bound" if ok else
-              'the embedding prefix is not passed to the re-bound routes', app, pf[0] if pf else ba.node)
-    crf = app.func('cast_to_route_factory')
-    sub = [r for r in returns_of(crf) if isinstance(r.value, ast.Call) and call_name(r.value) == 'SubApplication']
-    ok = len(sub) == 1 and norm(sub[0].value.args[0]) == '*%s' % crf.params()[0] and \
-        has_cond(conds(crf, sub[0]), lambda t: norm(t) == 'isinstance(%s[1], Application)' % crf.params()[0], True)
-    rep.check('R10.a', fkey(crf), ok, '(prefix, Application) tuples become SubApplication(prefix, app)' if ok else
-              'cast_to_route_factory no longer maps (prefix, Application) to SubApplication(*entry)', app, crf.node)
-    ad = app.func('Application.add')
-    rfv = [norm(s.targets[0]) for s in stmts_of(ad.node) if isinstance(s, ast.Assign) and isinstance(s.value, ast.Call)
-           and call_name(s.value) == 'cast_to_route_factory']
-    rf = rfv[0] if rfv else 'rf'
-    ok = any(isinstance(s, ast.Assign) and isinstance(s.value, ast.Call) and norm(s.value.func) == '%s.bind_all' % rf and
-             has_cond(conds(ad, s), lambda t: "getattr(%s, 'bind_all', None)" % rf in norm(t), True) for s in stmts_of(ad.node))
-    from .c06 import check_running_index
-    check_running_index(rep, 'R10.a')
-    rep.check('R10.a', fkey(ad, 'uses bind_all'), ok, 'add() expands route factories through bind_all' if ok else 'add() does not use bind_all for sub-applications', app, ad.node)
-    rep.floor('R10.a', 7)
+    def bind_all_rules():
+        return _r10a(rep, app, route)
+    kd = rep_guard(bind_all_rules)
+
+    def cast_rule():
+        _r10a_cast(rep, app)
+    rep_guard(cast_rule)
+
+    def running_index():
+        from .c06 import check_running_index
+        check_running_index(rep, 'R10.a')
+    rep_guard(running_index)
+
+    def add_uses_bind_all():
+        _r10a_add(rep, app)
+    rep_guard(add_uses_bind_all)
+    rep_guard(rep.floor, 'R10.a', 7)
 
     # ---- R10.b -----------------------------------------------------------
-    bi = route.func('BoundRoute.__init__')
-    ps = bi.params()
-    pt = [s for s in stmts_of(bi.node) if isinstance(s, ast.Assign) and norm(s.targets[0]) == 'self.pattern']
-    ok = len(pt) == 1 and norm(pt[0].value) == 'prefix + %s.pattern' % ps[1]
-    rep.check('R10.b', fkey(bi, 'self.pattern'), ok, 'bound pattern = prefix + (already bound) inner pattern, so prefixes compose by depth' if ok else
-              'BoundRoute.pattern is not prefix + route.pattern: %s' % (short(pt[0].value) if pt else None), route, pt[0] if pt else bi.node)
-    pp = [s for s in stmts_of(bi.node) if isinstance(s, ast.Assign) and norm(s.targets[0]) == 'prefix']
-    ok = len(pp) == 1 and norm(pp[0].value) == "kwargs.pop('prefix', '')"
-    rep.check('R10.b', fkey(bi, 'prefix default'), ok, "prefix comes from the bind keyword, default ''" if ok else 'prefix is not kwargs.pop(\'prefix\', \'\')', route, bi.node)
-    si = app.func('SubApplication.__init__')
-    sp = [s for s in stmts_of(si.node) if isinstance(s, ast.Assign) and norm(s.targets[0]) == 'self.prefix']
-    ok = len(sp) == 1 and norm(sp[0].value) == "%s.rstrip('/')" % si.params()[1]
-    rep.check('R10.b', fkey(si, 'self.prefix'), ok, "prefix is stored without a trailing slash ('/' merges at root level)" if ok else
-              "SubApplication.prefix is not prefix.rstrip('/')", app, si.node)
-    sa = [s for s in stmts_of(si.node) if isinstance(s, ast.Assign) and norm(s.targets[0]) == 'self.app']
-    ok = len(sa) == 1 and norm(sa[0].value) == si.params()[2]
-    rep.check('R10.b', fkey(si, 'self.app'), ok, 'the embedded application is kept as given' if ok else 'SubApplication.app is not the given application', app, si.node)
-    ur = [s for s in stmts_of(bi.node) if isinstance(s, ast.Assign) and 'self.unbound_route' in [norm(t) for t in s.targets]]
-    ok = len(ur) == 1 and norm(ur[0].value) == "getattr(%s, 'unbound_route', %s)" % (ps[1], ps[1])
-    rep.check('R10.b', fkey(bi, 'unbound_route'), ok, 'endpoint/render always come from the original unbound route, at any depth' if ok else
-              'unbound_route is not carried through re-binding', route, bi.node)
-    bapps = [s for s in stmts_of(bi.node) if isinstance(s, ast.Assign) and norm(s.targets[0]) == 'self.bound_apps']
-    ok = len(bapps) == 1 and norm(bapps[0].value) == "getattr(%s, 'bound_apps', []) + [%s]" % (ps[1], ps[2])
-    rep.check('R10.b', fkey(bi, 'bound_apps'), ok, 'bound_apps grows inner -> outer; [-1] is the serving application' if ok else
-              'bound_apps is not extended with the binding application at the end', route, bi.node)
-    rep.floor('R10.b', 6)
+    def prefix_rules():
+        _r10b(rep, app, route)
+    rep_guard(prefix_rules)
+    rep_guard(rep.floor, 'R10.b', 6)
 
     # ---- R10.c -----------------------------------------------------------
-    chain.check_merge_order(rep, 'R10.c')
-    chain.check_request_layers(rep, 'R10.c')
-    from .c07 import check_slash_plumbing
-    check_slash_plumbing(rep, 'R10.c')
-    rep.floor('R10.c', 24)
+    def merge_order():
+        chain.check_merge_order(rep, 'R10.c')
+
+    def request_layers():
+        chain.check_request_layers(rep, 'R10.c')
+
+    def slash_plumbing():
+        from .c07 import check_slash_plumbing
+        check_slash_plumbing(rep, 'R10.c')
+    rep_guard(merge_order)
+    rep_guard(request_layers)
+    rep_guard(slash_plumbing)
+    rep_guard(rep.floor, 'R10.c', 24)
 
     # ---- R10.d -----------------------------------------------------------
-    rr = [s for s in stmts_of(bi.node) if isinstance(s, ast.Assign) and norm(s.targets[0]) == 'render_error']
-    from_app = [s for s in rr if has_cond(conds(bi, s), lambda t: norm(t) == 'rebind_render_error', True)]
-    from_route = [s for s in rr if has_cond(conds(bi, s), lambda t: norm(t) == 'rebind_render_error', False)]
-    ok = len(from_app) == 1 and norm(from_app[0].value) in ("getattr(%s.error_handler, 'render_error', None)" % ps[2], '%s.error_handler.render_error' % ps[2]) and \
-        len(from_route) == 1 and norm(from_route[0].value) == '%s.render_error' % ps[1]
-    rep.check('R10.d', fkey(bi, 'render_error source'), ok, 'render_error is the binding application\'s error handler\'s (unless rebind_render_error is off)' if ok else
-              'render_error is not taken from app.error_handler when re-binding', route, bi.node)
-    pop = [c for c in walk_body(bi.node) if isinstance(c, ast.Call) and norm(c.func) == 'kwargs.pop' and isinstance(c.args[0], ast.Constant)
-           and c.args[0].value == 'rebind_render_error']
-    ok = len(pop) == 1 and isinstance(pop[0].args[1], ast.Constant) and pop[0].args[1].value is True
-    rep.check('R10.d', fkey(bi, 'rebind_render_error default'), ok, 'rebind_render_error defaults to True' if ok else 'rebind_render_error does not default to True', route, bi.node)
-    offs = []
-    for m in repo.all_internal_modules():
-        for n in ast.walk(m.tree):
-            if isinstance(n, ast.keyword) and n.arg == 'rebind_render_error':
-                offs.append((m, n))
-            if isinstance(n, ast.Constant) and n.value == 'rebind_render_error' and m.name != ROUTE:
-                offs.append((m, n))
-    rep.check('R10.d', 'clastic::rebind_render_error callers', not offs, 'no caller in the package switches rebind_render_error off' if not offs else
-              'rebind_render_error is passed at %s' % [(m.relpath, n.value.lineno if hasattr(n, 'value') and hasattr(n.value, 'lineno') else '?') for m, n in offs], route)
-    st = [s for s in stmts_of(bi.node) if isinstance(s, ast.Assign) and norm(s.targets[0]) == 'self.render_error']
-    ok = len(st) == 1 and norm(st[0].value) == 'render_error'
-    rep.check('R10.d', fkey(bi, 'self.render_error'), ok, 'the selected render_error is stored on the bound route' if ok else 'self.render_error is not the selected renderer', route, bi.node)
-    cre = [c for c in walk_body(bi.node) if isinstance(c, ast.Call) and call_name(c) == 'check_render_error']
-    ok = len(cre) == 1 and [norm(a) for a in cre[0].args] == ['render_error', 'self.resources'] and \
-        has_cond(conds(bi, cre[0]), lambda t: norm(t) == 'callable(render_error)', True)
-    rep.check('R10.d', fkey(bi, 'check_render_error'), ok, 'the error renderer\'s arguments are checked against the merged resources at bind time' if ok else
-              'render_error is not checked against self.resources at bind time', route, bi.node)
-    d = app.func('Application.dispatch')
-    eh = [s for s in stmts_of(d.node) if isinstance(s, ast.Assign) and norm(s.targets[0]) == 'err_handler']
-    ok = len(eh) == 1 and norm(eh[0].value) == 'self.error_handler'
-    rep.check('R10.d', fkey(d, 'err_handler'), ok, 'uncaught errors and 404/405 types come from the serving application\'s error handler' if ok else
-              'dispatch does not consult self.error_handler', app, d.node)
-    hs = route.func('NullRoute.handle_sentinel_condition')
-    ok = any(isinstance(s, ast.Assign) and norm(s.value) == '_application.error_handler' for s in stmts_of(hs.node))
-    rep.check('R10.d', fkey(hs, 'err_handler'), ok, 'the null route asks the serving application for its error types' if ok else
-              'the null route does not use _application.error_handler', route, hs.node)
-    rep.floor('R10.d', 7)
+    def error_handling_rules():
+        _r10d(rep, app, route)
+    rep_guard(error_handling_rules)
+    rep_guard(rep.floor, 'R10.d', 7)
 
     # ---- R10.e -----------------------------------------------------------
-    popped, written = bind_kwarg_agreement(rep, 'R10.e')
-    d_ = popped.get('rebind_render')
-    ok = isinstance(d_, ast.Constant) and d_.value is True
-    rep.check('R10.e', fkey(bi, 'rebind_render default'), ok, 'plain routes re-bind their render argument by default' if ok else 'rebind_render does not default to True', route, bi.node)
-    a = si.node.args
-    dflt = dict(zip([x.arg for x in a.args][len(a.args) - len(a.defaults):], a.defaults))
-    ok = isinstance(dflt.get('rebind_render'), ast.Constant) and dflt['rebind_render'].value is False and \
-        any(isinstance(s, ast.Assign) and norm(s.targets[0]) == 'self.rebind_render' and norm(s.value) == 'rebind_render' for s in stmts_of(si.node))
-    rep.check('R10.e', fkey(si, 'rebind_render'), ok, 'embedded routes keep their own renderers unless re-binding is requested (default False)' if ok else
-              'SubApplication(rebind_render=False) default / storage changed', app, si.node)
-    ok = any(isinstance(c, ast.Call) and norm(c.func) == 'kwargs.setdefault' and isinstance(c.args[0], ast.Constant) and c.args[0].value == 'rebind_render'
-             and norm(c.args[1]) == 'self.rebind_render' for c in walk_body(ba.node))
-    rep.check('R10.e', fkey(ba, 'rebind_render forwarded'), ok, 'bind_all forwards self.rebind_render' if ok else 'bind_all does not forward self.rebind_render', app, ba.node)
-    ok = any(isinstance(c, ast.Call) and norm(c.func) == 'kwargs.setdefault' and isinstance(c.args[0], ast.Constant) and c.args[0].value == 'rebind_render'
-             and norm(c.args[1]) == "getattr(%s, 'rebind_render', True)" % rf for c in walk_body(ad.node))
-    rep.check('R10.e', fkey(ad, 'rebind_render default'), ok, 'add() defaults rebind_render from the route factory' if ok else
-              'add() does not default rebind_render from the factory', app, ad.node)
-    # render selection branches
-    rs = [s for s in stmts_of(bi.node) if isinstance(s, ast.Assign) and norm(s.targets[0]) == 'render']
-    is_explicit = lambda t: norm(t) == 'callable(unbound_route.render)'
-    expl = [s for s in rs if has_cond(conds(bi, s), is_explicit, True)]
-    ok = len(expl) == 1 and norm(expl[0].value) == 'unbound_route.render'
-    rep.check('R10.e', fkey(bi, 'explicit render wins'), ok, 'an explicit callable render always takes precedence' if ok else
-              'explicit callable renders no longer take precedence', route, bi.node)
-    fac = [s for s in rs if isinstance(s.value, ast.Call) and norm(s.value.func) == 'render_factory']
-    ok = len(fac) == 1 and norm(fac[0].value.args[0]) == 'unbound_route.render' and \
-        has_cond(conds(bi, fac[0]), is_explicit, False) and any('bind_render' in norm(t) and p is True for t, p in conds(bi, fac[0]))
-    rep.check('R10.e', fkey(bi, 'factory branch'), ok, 'a render argument is re-interpreted by a render factory only when re-binding applies' if ok else
-              'the render-factory branch is not conditioned on bind_render', route, fac[0] if fac else bi.node)
-    carry = [s for s in rs if s not in expl and s not in fac]
-    # (conditional expressions are normalised to if/else by the loader)
-    is_prev = lambda t: norm(t) == 'callable(%s.render)' % ps[1]
-    keep = [s for s in carry if norm(s.value) == '%s.render' % ps[1] and has_cond(conds(bi, s), is_prev, True)]
-    noop = [s for s in carry if norm(s.value) == '_noop_render' and has_cond(conds(bi, s), is_prev, False)]
-    ok = len(carry) == 2 and len(keep) == 1 and len(noop) == 1
-    rep.check('R10.e', fkey(bi, 'carry-through branch'), ok, 'otherwise the previously bound renderer is carried through' if ok else
-              'the carry-through branch of render selection changed', route, carry[0] if carry else bi.node)
-    br = [s for s in stmts_of(bi.node) if isinstance(s, ast.Assign) and norm(s.targets[0]) == 'bind_render']
-    ok = len(br) == 1 and isinstance(br[0].value, ast.BoolOp) and isinstance(br[0].value.op, ast.Or) and \
-        set(norm(v) for v in br[0].value.values) == {'rebind_render', '%s.render is _noop_render' % ps[1], 'not callable(%s.render)' % ps[1]}
-    rep.check('R10.e', fkey(bi, 'bind_render'), ok, 're-binding applies when requested or when nothing callable was bound yet' if ok else
-              'bind_render is not "rebind_render or route.render is _noop_render or not callable(route.render)"', route, br[0] if br else bi.node)
-    rf = [s for s in stmts_of(bi.node) if isinstance(s, ast.Assign) and norm(s.targets[0]) == 'render_factory' and isinstance(s.value, ast.Call)
-          and call_name(s.value) == 'first']
-    ok = len(rf) == 1 and norm(rf[0].value.args[0]) == 'reversed(render_factory_list)' and norm(kwarg(rf[0].value, 'key')) == 'callable'
-    rfl = [s for s in stmts_of(bi.node) if isinstance(s, ast.Assign) and norm(s.targets[0]) == 'render_factory_list']
-    ok = ok and len(rfl) == 1 and isinstance(rfl[0].value, ast.ListComp) and norm(rfl[0].value.generators[0].iter) == 'self.bound_apps'
-    rep.check('R10.e', fkey(bi, 'render factory'), ok, 'the render factory is that of the most recently bound (outermost) application that has one' if ok else
-              'render factory selection is not first(reversed([...bound_apps...]), key=callable)', route, bi.node)
-    sr = [s for s in stmts_of(bi.node) if isinstance(s, ast.Assign) and norm(s.targets[0]) == 'self.render']
-    ok = len(sr) == 1 and norm(sr[0].value) == 'render'
-    rep.check('R10.e', fkey(bi, 'self.render'), ok, 'the selected renderer is stored and used for the chain' if ok else 'self.render is not the selected renderer', route, bi.node)
-    rep.floor('R10.e', 12)
+    def kwarg_agreement():
+        from .c07 import bind_kwarg_agreement
+        bind_kwarg_agreement(rep, 'R10.e')
+
+    def render_plumbing():
+        _r10e_plumbing(rep, app, route, kd)
+
+    def render_selection():
+        _r10e_render(rep, app, route)
+    rep_guard(kwarg_agreement)
+    rep_guard(render_plumbing)
+    rep_guard(render_selection)
+    rep_guard(rep.floor, 'R10.e', 12)
